@@ -724,6 +724,11 @@ func (w *Worker) unionEq(a, b *Union) (Term, Term) {
 			continue
 		}
 		t := kinds.typ(k)
+		if synth, ok := t.(*types.Named); ok && synth.Obj().Pkg() == nil && synth.Obj().Name() == "verifRType" {
+			// reflect.Type values: equal iff they describe the same dynamic type
+			eq = mkOr(eq, mkAnd(both, mkEq(a.P[k].(Term), pb.(Term))))
+			continue
+		}
 		if synth, ok := t.(*types.Named); ok && synth.Obj().Pkg() == nil && synth.Obj().Name() == "verifErr" {
 			// *errors.errorString-like: pointer identity; distinct error objects are unequal
 			ea, eb := a.P[k].(ErrV), pb.(ErrV)
@@ -1385,6 +1390,9 @@ func kindImplements(k int, iface *types.Interface) bool {
 		return false
 	}
 	t := kinds.typ(k)
+	if n, ok := t.(*types.Named); ok && n.Obj().Pkg() == nil && n.Obj().Name() == "verifRType" {
+		return true
+	}
 	if n, ok := t.(*types.Named); ok && n.Obj().Pkg() == nil && n.Obj().Name() == "verifErr" {
 		return iface.NumMethods() == 0 || types.Identical(iface, errorIface) || (iface.NumMethods() == 1 && iface.Method(0).Name() == "Error")
 	}
